@@ -20,15 +20,14 @@ theorem C19_helpers_thread_spec :
 example : GeneratedC19.sites.length ≥ 40 ∧ (Kind.operand ∈ siteKinds) ∧ (Kind.param ∈ siteKinds) ∧ (Kind.like ∈ siteKinds) := by
   decide
 
-/-- (a') … and the only sites that neither derive the spec from an operand nor forward their own parameter are pinned by
+/-- (a') … and the only site that neither derives the spec from an operand nor forwards its own parameter is pinned by
 id: `measure_reserved_mem` builds its own `Spec(...)` for a stand-alone computation.  (The xarray branch of `asarray`
-used to re-enter `asarray(a.data)` without `spec`; since the fix it forwards its parameter.  The id stays in the list so
-that the statement is about "at most these"; a `selfUnwrap` anywhere else fails the check.) -/
+used to re-enter `asarray(a.data)` without `spec` — kind `selfUnwrap`; since the fix it forwards its parameter, and a
+recurrence fails this `decide`.) -/
 theorem C19_non_threaded_sites_pinned :
     ∀ p ∈ GeneratedC19.sites, (Kind.ofCode p.2).threaded = true ∨
       (p.1, Kind.ofCode p.2) ∈
-        [("cubed/array_api/creation_functions.py:asarray:asarray#1", Kind.selfUnwrap),
-         ("cubed/core/array.py:measure_reserved_mem:ones#1", Kind.fresh)] := by
+        [("cubed/core/array.py:measure_reserved_mem:ones#1", Kind.fresh)] := by
   decide
 
 example : ∃ p ∈ GeneratedC19.sites, (Kind.ofCode p.2).threaded = false := by decide
